@@ -63,6 +63,22 @@ type world struct {
 	model map[prefix]bool // canonical prefixes present (sequential model)
 	hist  []string
 	cfg   map[string]any
+	// a caller that keeps its addresses: one net.IP per address, built once and
+	// handed to every Add and Remove that names it (nil: a fresh slice per call)
+	kept map[uint32]net.IP
+}
+
+// arg is the *net.IPNet handed to Add/Remove for p.
+func (w *world) arg(p prefix) *net.IPNet {
+	if w.kept == nil {
+		return p.ipnet()
+	}
+	b, ok := w.kept[p.ip]
+	if !ok {
+		b = ip4(p.ip)
+		w.kept[p.ip] = b
+	}
+	return &net.IPNet{IP: b, Mask: net.CIDRMask(p.ones, 32)}
 }
 
 func (w *world) violate(prop, class, detail, sig string) {
@@ -164,7 +180,7 @@ func tailOf(h []string, n int) []string {
 
 func (w *world) add(p prefix) {
 	w.hist = append(w.hist, "Add("+p.String()+")")
-	if err := w.f.Add(p.ipnet()); err != nil {
+	if err := w.f.Add(w.arg(p)); err != nil {
 		w.violate("C11", "valid-cidr-rejected", fmt.Sprintf("Add(%s) = %v", p, err), "valid-cidr-rejected")
 		return
 	}
@@ -173,7 +189,7 @@ func (w *world) add(p prefix) {
 
 func (w *world) remove(p prefix) {
 	w.hist = append(w.hist, "Remove("+p.String()+")")
-	if err := w.f.Remove(p.ipnet()); err != nil {
+	if err := w.f.Remove(w.arg(p)); err != nil {
 		w.violate("C11", "valid-cidr-rejected", fmt.Sprintf("Remove(%s) = %v", p, err), "valid-cidr-rejected")
 		return
 	}
@@ -311,6 +327,13 @@ func (w *world) sequential() {
 	fillKind := ch("cfg.fill", 4)
 	nOps := ch("cfg.ops", 40)
 	w.cfg = map[string]any{"mode": "sequential", "fill": fillKind, "ops": nOps}
+	if ch("cfg.caller_keeps_addresses", 3) == 0 {
+		// the same net.IP slice is handed in again whenever the same address is
+		// named, at whatever prefix length (10.1.2.3/8 now, 10.1.2.3/32 later)
+		w.kept = map[uint32]net.IP{}
+		w.cfg["caller_keeps_addresses"] = true
+		simrt.Probe("caller_keeps_addresses")
+	}
 	fillers := w.prologue(fillKind)
 	simrt.ArmPreempt()
 	adds := len(fillers)
